@@ -25,6 +25,9 @@ class Susp:
 '''
 
 
+BIG_ADVANCES = [2**31 - 1, 2**31, 2**31 + 5, 3 * 2**30 + 1, 2**32 - 1, 2**32, 2**32 + 7, 5 * 2**31 + 3, 2**40 + 3, 2**52 + 1]
+
+
 class Gen:
     def __init__(self, rnd, nfuncs, features):
         self.r = rnd
@@ -37,6 +40,9 @@ class Gen:
         return r.choice(['x + %d' % r.randrange(1, 5), 'x * 2 + 1', 'x - 1', '(x + 3) % 7', 'x'])
 
     def adv(self):
+        if 'bigtime' in self.feat and self.r.random() < 0.35:
+            # one execution of a line lasting longer than 2**31 / 2**32 timer units (the counters are 64-bit)
+            return 'A(%d)' % self.r.choice(BIG_ADVANCES)
         return 'A(%d)' % self.r.choice([1, 3, 10, 50, 200, 1000])
 
     def callee(self, i):
@@ -72,6 +78,8 @@ class Gen:
                         'lambda', 'usegen', 'usegen2', 'driveco']
         if 'selfdisable' in self.feat and depth > 0:
             choices += ['selfwith', 'selfwith', 'selfdis']
+        if 'snapinside' in self.feat:
+            choices += ['snapin', 'snapin']
         if in_loop:
             choices += ['break', 'continue']
         if kind in ('gen', 'agen'):
@@ -137,6 +145,9 @@ class Gen:
             return [p + 'if x %% 5 == %d:' % r.randrange(5), p + '    return x']
         if c == 'raise':
             return [p + 'if x %% 7 == %d:' % r.randrange(7), p + '    raise ValueError(x)']
+        if c == 'snapin':
+            # statistics are read while this function is executing (a pure read, whatever the reading method)
+            return [p + 'SNAP(%d)' % r.randrange(3)]
         if c == 'selfwith':
             return [p + 'with PROF:'] + self.stmts(i, depth - 1, ind + 4, in_loop, kind)
         if c == 'selfdis':
@@ -226,10 +237,20 @@ def make_program(rnd, features, threads=False):
             k = 'co'
         g.kinds[i] = k
     g.kinds[0] = 'fn'
+    oneline = set()
+    if 'oneline' in features:
+        # functions whose whole body sits on the def line (and lambdas): one line entry only
+        for i in range(1, n):
+            if g.kinds[i] == 'fn' and rnd.random() < 0.6:
+                oneline.add(i)
     lines = ['# generated'] + PRELUDE.strip('\n').split('\n') + ['']
     funcs = {}
     for i in range(n):
         fl = g.function(i)
+        if i in oneline:
+            fl = [rnd.choice(['def f%d(x, d): return x * 2 + %d' % (i, rnd.randrange(5)),
+                              'f%d = lambda x, d: x + %d' % (i, rnd.randrange(5)),
+                              'def f%d(x, d): A(%d); return x' % (i, rnd.choice([1, 10, 200]))])]
         funcs[i] = fl
         lines += fl + ['']
     names = ['f%d' % i for i in range(n)]
@@ -309,13 +330,35 @@ def make_program(rnd, features, threads=False):
             m.append('    P.addmod(%r)' % (twin_names,))
         registered += main_names + twin_names
         regnames = []
+    if 'regmodes' in features:
+        # every registration entry point: add_function, the decorator, add_module (functions and classes, one
+        # module holding functions of several files), and the auto-profiling hook (functions and classes)
+        pool = list(dict.fromkeys(regnames + [x for x in names if x.startswith('u')]))
+        rnd.shuffle(pool)
+        while pool:
+            k = rnd.randrange(1, min(3, len(pool)) + 1)
+            grp, pool = pool[:k], pool[k:]
+            how = rnd.choice(['reg', 'addmod', 'addcls', 'regimp', 'regimp', 'regimpcls'])
+            if how == 'reg':
+                m += ['    P.reg(%r)' % x for x in grp]
+            elif how == 'addmod':
+                m.append('    P.addmod(%r)' % (grp,))
+            elif how == 'addcls':
+                m.append('    P.addcls(%r)' % (grp,))
+            elif how == 'regimp':
+                m.append('    P.regimp(%r)' % (grp,))
+            else:
+                m.append('    P.regimp(%r, True)' % (grp,))
+            registered += grp
+        regnames = []
     for nm in regnames:
-        if rnd.random() < 0.5:
+        if rnd.random() < 0.5 or 'bare' in features:
             m.append('    P.reg(%r)' % nm)
             registered.append(nm)
         else:
             m.append('    P.deco(%r)' % nm)
             decorated.append(nm)
+    snapcall = (lambda: 'P.snap(%d)' % rnd.randrange(3)) if 'snapmodes' in features else (lambda: 'P.snap()')
     phases = rnd.randrange(1, 4)
     for ph in range(phases):
         style = rnd.randrange(3)
@@ -323,14 +366,17 @@ def make_program(rnd, features, threads=False):
         for _ in range(rnd.randrange(1, 4)):
             body += call_stmt(rnd.choice(names), '        ' if style == 0 else '    ')
             if rnd.random() < 0.3:
-                body.append(('        ' if style == 0 else '    ') + 'P.snap()')
-        if style == 0:
+                body.append(('        ' if style == 0 else '    ') + snapcall())
+        if 'bare' in features and style == 2:
+            # a window opened with the plain enable()/disable() pair (no counting)
+            m += ['    P.bare_on()'] + body + ['    ' + snapcall(), '    P.bare_off()']
+        elif style == 0:
             m += ['    with prof:'] + body
         elif style == 1:
             m += ['    prof.enable_by_count()'] + body + ['    prof.disable_by_count()']
         else:
             m += body            # only decorated functions are profiled here
-        m.append('    P.snap()')
+        m.append('    ' + snapcall())
         gens_ = [x for x in names if kinds[x] == 'gen']
         if 'straddle' in features and gens_:
             nm = rnd.choice(gens_)
@@ -346,6 +392,8 @@ def make_program(rnd, features, threads=False):
             if rnd.random() < 0.5:
                 m += ['    with prof:'] + call_stmt(rnd.choice(names), '        ')
             m.append('    P.snap()')
+    if 'regmodes' in features:
+        m += ['    P.unwind()', '    P.snap()']
     if threads:
         m = ['def main(P):', '    prof = P.prof']
         for nm in rnd.sample(names, rnd.randrange(1, len(names) + 1)):
@@ -357,6 +405,9 @@ def make_program(rnd, features, threads=False):
         for _ in range(rnd.randrange(1, 4)):
             m += call_stmt(rnd.choice([x for x in names if kinds[x] in ('fn', 'gen')]), '        ')
             m.append('        P.yield_()')
+            if 'monitor' in features:
+                m.append('        if k == 0:')
+                m.append('            P.peek(%d)' % rnd.randrange(2))
         m.append('        if k != 0:')
         m.append('            prof.disable_by_count()')
         m.append('        P.note_count(k)')
@@ -371,4 +422,11 @@ FEATURE_SETS = [
     {'gen', 'straddle'}, {'selfdisable'}, {'selfdisable', 'gen'}, {'twinfile', 'addmod'},
     {'rec'}, {'gen'}, {'gen', 'rec'}, {'co'}, {'gen', 'co', 'rec', 'mutual'}, {'twins'}, {'twinfile'}, {'twins', 'twinfile', 'gen'},
     {'rereg'}, {'rereg', 'twins'}, set(), {'mutual', 'rec'},
+]
+# round 2: the glue around the tracer (registration entry points, reading methods, reads from inside running code,
+# plain enable/disable windows, long-running lines, one-line functions)
+FEATURE_SETS_GLUE = [
+    {'twinfile', 'regmodes'}, {'regmodes', 'gen'}, {'twinfile', 'regmodes', 'twins'}, {'snapinside', 'snapmodes'},
+    {'snapinside', 'snapmodes', 'gen', 'rec'}, {'bare', 'snapmodes'}, {'bare', 'gen'}, {'bigtime'}, {'bigtime', 'gen'},
+    {'oneline'}, {'oneline', 'regmodes'}, {'snapmodes', 'co'},
 ]
